@@ -113,7 +113,7 @@ def run_verus_unit(prop, unit, workdir, out, tier, known):
         out.obligations.append({'name': '%s/%s' % (unit, short), 'backend': 'verus+z3', 'ok': bool(fr['success']),
                                 'time_ms': fr['time_ms'], 'kind': 'fn' if is_extracted else ('lemma' if fr.get('mode') == 'proof' else 'restated/model exec fn')})
     for f in meta['functions']:
-        if f['id'] in serving and not f['canary'] and not f.get('known'):
+        if f['id'] in serving and not f['canary'] and not f.get('known') and not f.get('lemma'):
             out.functions.append({'unit': unit, 'fn': f['source_fn'], 'file': f['file'], 'line': f['line'],
                                   'sha256': f['sha256'], 'contract_clauses': f['clauses'], 'backend': 'verus'})
     for fl in res['failures']:
